@@ -11,7 +11,8 @@ META = dict(
            "two-point interactions, Maxwell element, PD controller and motor, external force; point mass and rigid body on a plane with friction + "
            "sphere-sphere contact; quaternion rod with a line load and a rigid connection): every System evaluation on a SYMBOLIC state equals, entry by "
            "entry, the dense accumulation of the contributions' own outputs at their DOFs; (b) index sets partition the global ranges (integers, checked "
-           "directly); (c) assemble() twice: identical layout and evaluations; (d) name registry: all add / remove / pop / extend histories of length <= 3 "
+           "directly); (b') derived evaluations xi_F, chi_N, chi_g, zeta_g, g_dot_u, E_kin, Mu_q, tau / set_tau (vector and callable) "
+           "on the three families and on an actuator family (PD controller with 2 inputs / 1 force, two motors, compliance spring); (c) assemble() twice: identical layout and evaluations; (d) name registry: all add / remove / pop / extend histories of length <= 3 "
            "(quick) / 4 over contributions with colliding names.",
     assumptions=["quaternion parts nonzero", "sparse containers stubbed by their COO->dense law (C15)"],
     trusted_base=[],
@@ -65,6 +66,18 @@ def family(h, which, seed):
                Force(np.array([0.0, 0.0, -9.81]), b, B_r_CP=np.array([0.25, 0.0, 0.0]), name="f")]
         els[3].name = "motor"      # (PD / PID controllers read the joint angle: their Jacobians are the subject of C08)
         sysm.add(a, b, pm, fr, rev, sph, tp3, *els)
+    elif which == "actuators":
+        # two revolute joints with a PD controller (2 inputs, 1 force), a motor and a PID controller (extra coordinate): sizes ntau != nla_tau
+        from cardillo.actuators import PIDcontroller
+        a, b = lib.make_rb(rng, "a"), lib.make_rb(rng, "b")
+        fr = lib.make_frame(h, rng, "fr", moving=False)[0]
+        r1 = C.Revolute(fr, a, axis=2, r_OJ0=np.zeros(3), A_IJ0=np.eye(3), name="rev1")
+        r2 = C.Revolute(a, b, axis=0, r_OJ0=np.array([0.5, 0.0, 0.25]), A_IJ0=np.eye(3), name="rev2")
+        pd = PDcontroller(r1, 2.0, 0.5, np.array([0.25, 0.5]))
+        mot = Motor(r2, 1.5)
+        mot2 = Motor(r1, -0.75)
+        pd.name, mot.name, mot2.name = "pd", "motor", "motor2"
+        sysm.add(a, b, fr, r1, r2, pd, mot, mot2, Spring(r2, 3.0, l_ref=0.25, compliance_form=True, name="s_compl"))
     elif which == "contacts":
         a, pm, pm2 = lib.make_rb(rng, "a"), lib.make_pm(rng, "pm"), lib.make_pm(rng, "pm2")
         fr = Frame(name="plane")
@@ -195,7 +208,69 @@ def scatter(h, which="mechanism", group=0, seed=0):
             h.eq("System.xi_N = post-impact rate + e_N pre-impact rate", sysm.xi_N(t2, t, q2, q, u2, u), ref)
 
 
-def layout(h, which="mechanism", seed=0):
+def derived(h, which="contacts", seed=0):
+    """system-level evaluations that are defined through other ones: xi_F, chi_*, zeta_*, E_kin, Mu_q, tau / set_tau"""
+    sysm = family(h, which, seed)
+    t, q, u, ud, la = _state(h, sysm)
+    has = lambda c, p: hasattr(c, p) and callable(getattr(c, p))
+    obj = object if h.sym else float
+    zero = np.zeros(sysm.nu)
+    if sysm.nla_F:
+        q2, u2, t2 = h.vec("qq", sysm.nq), h.vec("uu", sysm.nu), h.real("tt")
+        ref = np.zeros(sysm.nla_F, dtype=obj)
+        for c in sysm.contributions:
+            if has(c, "gamma_F"):
+                ref[c.la_FDOF] = c.gamma_F(t, q[c.qDOF], u[c.uDOF]) + c.e_F * c.gamma_F(t2, q2[c.qDOF], u2[c.uDOF])
+        h.eq("System.xi_F = post-impact slip + e_F pre-impact slip", sysm.xi_F(t2, t, q2, q, u2, u), ref)
+    if sysm.nla_N:
+        v = h.call("System.chi_N evaluates", sysm.chi_N, t, q)
+        if v is not None:
+            h.eq("System.chi_N = g_N_dot(t, q, 0)", v, sysm.g_N_dot(t, q, zero))
+    if sysm.nla_g:
+        h.eq("System.chi_g = g_dot(t, q, 0)", sysm.chi_g(t, q), sysm.g_dot(t, q, zero))
+        h.eq("System.zeta_g = g_ddot(t, q, u, 0)", sysm.zeta_g(t, q, u), sysm.g_ddot(t, q, u, zero))
+        Wg = _dense(sysm.W_g(t, q))
+        h.eq("System.g_dot_u = W_g^T", _dense(sysm.g_dot_u(t, q)), Wg.T)
+    E = 0.0
+    for c in sysm.contributions:
+        if has(c, "E_kin"):
+            E = E + c.E_kin(t, q[c.qDOF], u[c.uDOF])
+    h.eq("System.E_kin = sum of the contributions", sysm.E_kin(t, q, u), E)
+    ref = np.zeros((sysm.nu, sysm.nq), dtype=obj)
+    for c in sysm.contributions:
+        if has(c, "Mu_q"):
+            blk = _dense(c.Mu_q(t, q[c.qDOF], u[c.uDOF]))
+            for i, ri in enumerate(c.uDOF):
+                for j, cj in enumerate(c.qDOF):
+                    ref[ri, cj] = ref[ri, cj] + blk[i, j]
+    h.eq("System.Mu_q = scatter of the contributions", _dense(sysm.Mu_q(t, q, u)), ref)
+    acts = [c for c in sysm.contributions if hasattr(c, "tauDOF")]
+    if acts:
+        allidx = sorted(i for c in acts for i in c.tauDOF)
+        h.holds("tauDOF partitions range(ntau)", allidx == list(range(sysm.ntau)), info=str(allidx))
+        ref = np.zeros(sysm.ntau, dtype=obj)
+        for c in acts:
+            ref[c.tauDOF] = np.atleast_1d(c.tau(t))
+        h.eq("System.tau = scatter of the actuators' inputs", sysm.tau(t), ref)
+        # set_tau distributes a global input vector (constant and callable form) to the actuators
+        newtau = h.vec("newtau", sysm.ntau)
+        sysm.set_tau(newtau)
+        def same(name, got, want):
+            got, want = np.atleast_1d(got), np.atleast_1d(want)
+            h.holds(name + " (size)", got.shape == want.shape, info=f"{got.shape} vs {want.shape}")
+            if got.shape == want.shape:
+                h.eq(name, got, want)
+        for c in acts:
+            same(f"set_tau(vector): actuator {c.name} receives its own entries", c.tau(t), newtau[c.tauDOF])
+        v = h.call("set_tau(vector): System.tau evaluates", sysm.tau, t)
+        if v is not None:
+            same("set_tau(vector): System.tau returns the vector", v, newtau)
+        sysm.set_tau(lambda tt: newtau * tt)
+        for c in acts:
+            same(f"set_tau(callable): actuator {c.name} receives its own entries", c.tau(t), (newtau * t)[c.tauDOF])
+
+
+def layout(h, which="mechanism", seed=0, evaluations=True):
     """index sets partition the global ranges; assembling twice changes nothing"""
     sysm = family(h, which, seed)
 
@@ -214,6 +289,14 @@ def layout(h, which="mechanism", seed=0):
         h.holds(f"{k} partitions range({size})", allidx == list(range(getattr(sysm, size))), info=str(allidx)[:80])
     allu = sorted(i for c in sysm.contributions if hasattr(c, "my_uDOF") for i in c.my_uDOF)
     h.holds("my_uDOF partitions range(nu)", allu == list(range(sysm.nu)))
+    if not evaluations:
+        # (controllers read the joint angle, which is only defined on the joint manifold: layout clauses only)
+        lib.assemble(sysm)
+        h.holds("assemble() twice: identical layout", s1 == snapshot())
+        for c in sysm.contributions:
+            if hasattr(c, "la_tauDOF"):
+                h.holds(f"{c.name}: la_tauDOF has the actuator's own number of forces", len(c.la_tauDOF) == c.nla_tau)
+        return
     t, q, u, ud, la = _state(h, sysm)
     with h.capture():
         la_c = h.vec("la_c", sysm.nla_c) if sysm.nla_c else np.zeros(0)
@@ -308,6 +391,9 @@ def cases(tier, seed):
         for g in range(4):
             cs.append(Case(f"scatter/{which}/group{g}", scatter, dict(which=which, group=g, seed=seed), timeout=T, hard=1200, sentinel=False))
         cs.append(Case(f"layout/{which}", layout, dict(which=which, seed=seed), timeout=T, sentinel=False))
+        cs.append(Case(f"derived/{which}", derived, dict(which=which, seed=seed), timeout=T, hard=T * 8, sentinel=False))
+    cs.append(Case("derived/actuators", derived, dict(which="actuators", seed=seed), timeout=T, hard=T * 8, sentinel=False))
+    cs.append(Case("layout_only/actuators", layout, dict(which="actuators", seed=seed, evaluations=False), timeout=T, sentinel=False))
     L = 3 if tier == "quick" else 4
     hist = []
     for n in range(1, L + 1):
